@@ -28,6 +28,9 @@ import traceback
 
 VERIF = os.path.dirname(os.path.dirname(os.path.abspath(__file__)))
 EVID = os.path.join(VERIF, "evidence")
+if os.environ.get("VERIF_SRC") and os.path.realpath(os.environ["VERIF_SRC"]) != "/repo/src":
+    # runs against a scratch tree (mutation self-test) must never touch the registered evidence
+    EVID = os.environ.get("VERIF_EVID", os.path.join(VERIF, ".cache", "evidence-scratch"))
 REPLAYS = os.path.join(EVID, "replays")
 KNOWN = os.path.join(VERIF, "known_findings.json")
 
